@@ -126,8 +126,11 @@ CLASSIFIERS = {
     'block_content_in_bullet_item': lambda c, d: _err(c)[1] == 'li' and _err(c)[2] == 'not-expected',
     # preface/preamble/conclusions are removed by normalise() when empty; they are only left empty when the thing that
     # emptied them is removed in the same pass: an empty LONGTITLE or CROSSHEADING line in the input
-    'emptied_container': lambda c, d: _err(c)[2] == 'missing-child' and _err(c)[0] in EMPTYABLE and
-                         (_err(c)[0] not in ('preface', 'preamble', 'conclusions') or re.search(r'^[ \t]*(LONGTITLE|CROSSHEADING)[ \t]*$', c.get('text', ''), re.M) is not None),
+    'emptied_container': lambda c, d: _err(c)[2] == 'missing-child' and (
+        (_err(c)[0] in EMPTYABLE and (_err(c)[0] not in ('preface', 'preamble', 'conclusions')
+                                      or re.search(r'^[ \t]*(LONGTITLE|CROSSHEADING)[ \t]*$', c.get('text', ''), re.M) is not None))
+        # a speech container or group whose only content was a FOOTNOTE block that a reference took
+        or (_err(c)[0] in SPEECH and 'FOOTNOTE' in c.get('text', ''))),
     'crossheading_misplaced': lambda c, d: _err(c)[0] == 'crossHeading' and _err(c)[2] == 'not-expected',
     'paragraph_misplaced': lambda c, d: _err(c)[0] == 'p' and _err(c)[2] == 'not-expected' and _err(c)[1] in ({'debateBody', 'listWrapUp', 'listIntroduction'} | SPEECH),
     'speech_nesting': lambda c, d: _err(c)[0] in SPEECH and _err(c)[2] == 'not-expected',
